@@ -30,6 +30,10 @@ def monitor(run):
                 yield f'tick {t} pool {pi}: free CPU {p["avail_cpu"]} + allocated {cpu - p["avail_cpu"]} != capacity {p["max_cpu"]}'
             if ram != F(p['max_ram']):
                 yield f'tick {t} pool {pi}: free RAM {p["avail_ram"]} + allocated {float(ram - F(p["avail_ram"]))} != capacity {p["max_ram"]}'
+            for c in p['suspending']:
+                if c['left'] is not None and c['left'] <= 0:
+                    yield (f'tick {t} pool {pi}: container {c["cid"]} finished suspending (ticks left {c["left"]}) '
+                           f'but its allocation ({c["cpu"]} CPU, {c["ram"]} GB) was not returned in that tick')
             if p['avail_cpu'] < 0:
                 yield f'tick {t} pool {pi}: negative free CPU {p["avail_cpu"]}'
             if p['avail_ram'] < 0 and not r['over']:
@@ -56,6 +60,7 @@ def run(ctx):
         ('G-exec', 250, 4000, {}),
         ('G-exec-over', 100, 1500, dict(overcommit=True)),
         ('G-exec-long', 10, 150, dict(max_ticks=400, p_bad=0.0)),
+        ('G-exec-twins', 80, 1200, dict(twins=True)),
     ], nontrivial=lambda run: any(e.get('new') for e in run.trace))
     out['rule'] = ('state-aware command fuzzer over Executor (1-3 pools, CPUs 1-16, RAM 0.5..256, overcommit on/off, both '
                    'container modes, tps 1..100, DAG pipelines, allocations around the demand, suspensions at boundaries, '
